@@ -13,7 +13,7 @@
        spec_holds = every file wf_conf, no arity problem, no duplicate identifier
        tag        = 4*malformed? + 2*arity? + 1*dup? *)
 From Coq Require Import List ZArith String Ascii Bool.
-From NIC Require Import Lex.Lexer Lex.Parser Lex.Check.
+From NIC Require Import Lex.Lexer Lex.Parser Lex.Check Lex.IngressPath.
 Import ListNotations.
 Open Scope string_scope.
 
@@ -53,3 +53,11 @@ Definition failing (v : verdict) : bool :=
 (* identifier-scheme correspondence: the model of a namer against the real function's output *)
 Definition name_case (id : Z) (model real : string) : list Z :=
   [id; if String.eqb model real then 1 else 0; 1; 1; 8]%Z.
+
+(* Ingress path validator: whenever the real validator accepts, the model accepts
+   (the model lacks the regexp2.Compile check, so it may accept more).
+   tag 9 = real accepted, 10 = real rejected; nontrivial = the path is accepted but not one bare word
+   or rejected by the model *)
+Definition path_case (id : Z) (p : string) (real_accepts : bool) : list Z :=
+  let m := NIC.Lex.IngressPath.ingress_path_ok p in
+  [id; if real_accepts then (if m then 1 else 0) else 1; 1; 1; if real_accepts then 9 else 10]%Z.
